@@ -43,7 +43,15 @@ def gen_recon(wd):
     m = re.search(r"^\s*\*sb_completed_in_row = [^;]*;", f, re.M)
     if not m:
         raise RuntimeError("completion update of decode_tile_row not found")
+    body = slicer._strip_comments_keep_len(f)
+    mw = re.search(r"^\s*tile_wd_in_sb\s*=[^;]*;", body, re.M)
+    if not mw:
+        raise RuntimeError("tile width statement of decode_tile_row not found")
+    wd_stmt = f[mw.start():mw.end()]
     with open(os.path.join(wd, "c09_recon_sync.inc"), "w") as o:
+        o.write("#ifdef EDGE\n/* the tile-width statement of decode_tile_row, sliced verbatim */\n"
+                "static int32_t recon_tile_wd(DecModCtxt *dec_mod_ctxt, TilesInfo *tile_info, int32_t tile_col, EbDecHandle *dec_handle_ptr, int32_t sb_mi_size_log2) {\n    int32_t tile_wd_in_sb; (void)dec_mod_ctxt; (void)tile_info; (void)tile_col; (void)dec_handle_ptr; (void)sb_mi_size_log2;\n"
+                + wd_stmt + "\n    return tile_wd_in_sb;\n}\n#endif\n")
         o.write("/* sliced verbatim from decode_tile_row (EbDecProcessFrame.c) */\n"
                 "static int recon_sync_try(int32_t sb_row_in_tile, int32_t sb_col, int32_t tile_wd_in_sb, volatile int32_t *sb_completed_in_prev_row) {\n"
                 + blk + "\n        }\n    return 1;\n}\n"
@@ -146,6 +154,10 @@ def queries(tier):
                   funcs=[PF + ":decode_tile_row (Top-Right Sync block and completion update, sliced)"],
                   bound="tile %d superblock(s) wide, 3 superblock rows, every schedule of the three row workers" % w,
                   what="top and top-right superblocks are reconstructed before a superblock starts; no blocked row when its upper row is complete") for w in (1, 2, 3, 4)] + \
+           [Query(name="recon_row_sync_%dwide_partial_last_superblock" % w, harness="C09/recon_sync.c", gen=gen_recon, defines=["PW=%d" % w, "PR=3", "EDGE=1"], unwind=3 * w + 3, timeout=900, flags=["--slice-formula", "--object-bits", "10"],
+                  funcs=[PF + ":decode_tile_row (tile-width statement, Top-Right Sync block and completion update, sliced)"],
+                  bound="tile %d superblock(s) wide whose right edge is the frame edge at any 4-sample position inside or at the end of the last superblock (superblock 64 or 128; tile end stored as the frame width or rounded up to the superblock), 3 superblock rows, every schedule of the three row workers" % w,
+                  what="top and top-right superblocks are reconstructed before a superblock starts, also when the last superblock of the row is partial") for w in (2, 3)] + \
            [Query(name="lr_row_sync_%dwide" % w, harness="C09/lr_sync.c", gen=gen_lr, defines=["PW=%d" % w, "PR=3"], unwind=3 * w + 3, timeout=600,
                   funcs=[LR + ":dec_av1_loop_restoration_filter_row (Top-Right Sync block and completion update, sliced)"],
                   bound="every tile width needing %d processing unit(s) of 64 samples, 3 superblock rows, every schedule of the three row workers" % w,
